@@ -594,6 +594,10 @@ def run(m, tier):
     from rules import two_roundtrip
     results.append(two_roundtrip.standards_rule(m, "C17.R15", floor=230, build_depth=2))
     results.append(r16_list_elements(m))
+    from rules import C11 as _C11, order_rules as _or
+    from sa import tables as _tables
+    results.append(_C11.r11_strict_order(m, _tables.engine_instances(m, "BlockBase"), "C17.R17"))
+    results.append(_or.comment_option_owner_rule(m, "C17.R18"))
     expl = ("Decides grammar inclusion at the level at which the 2008 grammar is assembled: every rule and alternative of the linked "
             "2003 registry is still reachable, in the same relative order, in the linked 2008 registry (550 rules); identity tests of "
             "the generic engine also name the 2008 overrides; 2003 code that builds an overridden class by Python name is covered by a "
